@@ -59,7 +59,8 @@ def gen_case(rng):
             cur_set = rng.randrange(0, 500) if cur_set is None else cur_set + rng.randrange(1, 9)
             sym_lines.append(".set %s = %d" % (vary(rng, setname), cur_set))
         if k < 0.35 and alias is None:
-            alias = ("Tmp", rng.choice([16, 17, 30]))
+            # names a program conventionally gives to registers are ordinary names: nothing is predefined
+            alias = (rng.choice(["Tmp", "Tmp", "XL", "xh", "YL", "yh", "ZL", "zh", "Acc", "SREG", "SPL", "temp1", "r_tmp", "lowreg", "PCL"]), rng.choice([16, 17, 20, 30]))
             sym_lines.append(".def %s = r%d" % (vary(rng, alias[0]), alias[1]))
         elif k < 0.45 and alias is not None:
             sym_lines.append(".undef %s" % vary(rng, alias[0]))
@@ -129,6 +130,22 @@ def run(res):
                     " .db %s, 0\n", ".eseg\n .db %s\n", " rjmp %s\n", " lds r16, %s\n", " ldd r16, Y+%s\n", " out %s, r16\n")
     ] + [
         (" ldi r16, nowhere\n", ("ERR",), "undefined"),
+        # an .equ is its definition: read at every use, where and when the use stands (pc, .set variables) - never a cached value
+        (".set v = 1\n.equ e = v + 1\n .dw e\n.set v = 5\n .dw e\n", ("OK", "02000600"), "equ-over-set"),
+        (".equ p = pc\n nop\n .dw p\n .dw p, p\n .dw p\n", ("OK", "00000100020002000400"), "equ-over-pc"),
+        (".equ e = v * 2\n.set v = 3\n .dw e\n.set v = 4\n .dw e, low(e)\n ldi r16, e\n", ("OK", "06000800080008e0"), "equ-over-set"),
+        (".equ a = b + 1\n.equ b = v\n.set v = 1\n .dw a\n.set v = 9\n .dw a\n .dw a\n", ("OK", "02000a000a00"), "equ-chain-over-set"),
+    ] + [
+        c for nm in ("xl", "XH", "yl", "YH", "zl", "ZH", "sreg", "SPL", "sph", "acc", "temp", "r_0", "pcl", "lo8")
+        for c in ((".def %s = r20\n mov %s, r1\n" % (nm, nm), ("OK", "412d"), "conventional-name-def"),
+                  (" mov %s, r1\n" % nm, ("ERR",), "conventional-name-undefined"),
+                  (" ldi r16, %s\n" % nm, ("ERR",), "conventional-name-undefined"),
+                  (".def %s = r20\n.undef %s\n mov %s, r1\n" % (nm, nm.swapcase(), nm), ("ERR",), "conventional-name-undef"),
+                  (".def %s = r20\n.undef %s\n.def %s = r21\n mov %s, r1\n" % (nm, nm.swapcase(), nm, nm), ("OK", "512d"), "conventional-name-redef"),
+                  (".set %s = 3\n .dw %s\n" % (nm, nm.swapcase()), ("OK", "0300"), "conventional-name-set"),
+                  (".equ %s = 4\n .dw %s\n" % (nm, nm), ("OK", "0400"), "conventional-name-equ"),
+                  ("%s: nop\n .dw %s\n" % (nm, nm), ("OK", "00000000"), "conventional-name-label"))
+    ] + [
         (".set v = 1\n .dw v\n.set V = v + 1\n .dw v\n", ("OK", "01000200"), "set-latest"),
         (" .dw v\n.set v = 1\n", ("ERR",), "set-before-assignment"),
         (" .dw fwd\n.equ fwd = 7\n", ("OK", "0700"), "equ-forward"),
@@ -179,4 +196,4 @@ match_known = P.match_known
 
 
 def replay(path):
-    return P.replay_text(PROP, path, lambda vh, exe, i: None)
+    return P.replay_by_rerun(PROP, path)
